@@ -12,8 +12,9 @@
 
   "A C++ compiler accepts the header" is not a theorem (no compiler is modelled): correspondence only.
 
-  Clauses that are FALSE of the code today are kept as `…_full_statement : Prop` with a kernel-checked refutation and a
-  `_partial` theorem:  literal_roundtrip (F3b),  ops_subset_cxx (F3a),  builtin_calls_welltyped (F13).
+  The model follows the code AFTER the repairs of F3b (5f82544), F3a (0f767b2), F13 (bd13865), F22 (61d18c3), F24 (5a4a210),
+  F23 (17832f1): literal_roundtrip, ops_subset_cxx and builtin_calls_welltyped are proved in full; the former behaviour is
+  kept as `…Old` definitions with kernel-checked witnesses (`…_old_refuted`, `literal_*_witness`).
 -/
 import QV.Proofs.CxxEmit
 import QV.Spec.CxxLit
@@ -190,89 +191,251 @@ theorem observer_decl_name (name : Str) (n : Nat) (d : Str × Nat) (h : observer
 /-! ### includes -/
 
 /-- **Facilities used are included** (on the model's summary of the code): if any code body calls `Math.max/min`
-    the header includes `<algorithm>`, if any calls `console.*` it includes `<QtDebug>`. -/
+    the header includes `<algorithm>`, if any calls `console.*` it includes `<QtDebug>`, if any takes the remainder of
+    doubles (`std::fmod`) it includes `<cmath>`. -/
 theorem includes_cover (objs : List Obj) :
     ((allUses objs).contains .max = true ∨ (allUses objs).contains .min = true → incAlgorithm ∈ systemIncludes objs) ∧
-    ((allUses objs).contains .log = true → incQtDebug ∈ systemIncludes objs) := by
+    ((allUses objs).contains .log = true → incQtDebug ∈ systemIncludes objs) ∧
+    ((allUses objs).contains .fmod = true → incCmath ∈ systemIncludes objs) := by
   unfold systemIncludes
-  constructor
+  refine ⟨?_, ?_, ?_⟩
   · intro h
     have hc : ((allUses objs).contains .max || (allUses objs).contains .min) = true := by
       rcases h with h | h
       · rw [h]; rfl
       · rw [h]; exact Bool.or_true _
     rw [if_pos hc]
-    exact List.mem_append.2 (Or.inr (List.mem_singleton.2 rfl))
+    exact List.mem_append.2 (Or.inl (List.mem_append.2 (Or.inr (List.mem_singleton.2 rfl))))
   · intro h
     rw [if_pos h]
-    exact List.mem_append.2 (Or.inl (List.mem_singleton.2 rfl))
+    exact List.mem_append.2 (Or.inl (List.mem_append.2 (Or.inl (List.mem_singleton.2 rfl))))
+  · intro h
+    rw [if_pos h]
+    exact List.mem_append.2 (Or.inr (List.mem_singleton.2 rfl))
 
-/-! ### operators printed verbatim (F3a) -/
+/-! ### operators as spelled in C++ (F3a, F24, F23 — repaired) -/
 
-/-- full statement: every arithmetic operator the type checker admits on a type is a C++ operator on that type -/
-def ops_subset_cxx_full_statement : Prop :=
-  ∀ (op : ArithOp) (t : PTy), implAcceptsArith op t = true → cxxAcceptsArith op t = true
+/-- **Every operator the type checker admits is spelled as something a C++17 compiler accepts on those operands**:
+    arithmetic (`%` on doubles is `std::fmod`, recorded as a use of `<cmath>`), comparison (no ordering of pointers),
+    bitwise operators with enumeration operands (result cast back through `int`), for enumerations with and without
+    `Q_DECLARE_OPERATORS_FOR_FLAGS`. -/
+theorem ops_subset_cxx :
+    (∀ (op : ArithOp) (t : PTy), implAcceptsArith op t = true →
+        cxxAcceptsArith (spellArith op t) op t = true ∧
+        (spellArith op t = .fmod → Builtin.fmod ∈ arithUses (spellArith op t))) ∧
+    (∀ (op : CmpOp) (o : CmpOperands), implAcceptsCmp op o = true → cxxAcceptsCmp op o = true) ∧
+    (∀ (flagOps : Bool) (op : BitOp) (l r : ETy), isEnumOperand l = true → isEnumOperand r = true →
+        cxxAcceptsBit flagOps op l r = true) ∧
+    (∀ (a : ETy), isEnumOperand a = true → cxxAcceptsNot a = true) := by
+  refine ⟨?_, ?_, ?_, ?_⟩
+  · intro op t h
+    cases op <;> cases t <;> simp_all [implAcceptsArith, cxxAcceptsArith, cxxAcceptsInfix, spellArith, arithUses]
+  · intro op o h
+    cases o <;> simp_all [implAcceptsCmp, cxxAcceptsCmp]
+  · intro _ _ _ _ _ _; rfl
+  · intro _ _; rfl
 
-/-- **refuted** (finding F3a): `double % double` is admitted and printed as `%` -/
-theorem ops_subset_cxx_refuted : ¬ ops_subset_cxx_full_statement := by
+/-- the code before 0f767b2: `double % double` was admitted and printed as `%` (finding F3a, fixed) -/
+theorem ops_subset_cxx_old_refuted :
+    ¬ ∀ (op : ArithOp) (t : PTy), implAcceptsArith op t = true → cxxAcceptsArith (spellArithOld op t) op t = true := by
   intro h
   exact absurd (h .rem .double (by decide)) (by decide)
 
-/-- … and that is the only cell -/
-theorem ops_subset_cxx_partial (op : ArithOp) (t : PTy) (h : implAcceptsArith op t = true)
-    (hx : ¬ (op = .rem ∧ t = .double)) : cxxAcceptsArith op t = true := by
-  cases op <;> cases t <;> simp_all [implAcceptsArith, cxxAcceptsArith]
+/-- the code before 5a4a210: `pointer < null` was admitted, `a0 < nullptr` is ill-formed (finding F24, fixed) -/
+theorem cmp_subset_cxx_old_refuted :
+    ¬ ∀ (op : CmpOp) (o : CmpOperands), implAcceptsCmpOld op o = true → cxxAcceptsCmp op o = true := by
+  intro h
+  exact absurd (h .lt .pointerNull (by decide)) (by decide)
 
-/-! ### `std::max/std::min` (F13) -/
+/-- the code before 17832f1: `enum & enum` is `int`, which does not convert to the enumeration-typed local; neither
+    does `FlagA & flags` to `QFlags`, nor `~enum` (finding F23, fixed) -/
+theorem bit_subset_cxx_old_refuted :
+    (¬ ∀ (flagOps : Bool) (op : BitOp) (l r : ETy), isEnumOperand l = true → isEnumOperand r = true →
+        cxxAcceptsBitOld flagOps op l r = true) ∧
+    cxxAcceptsBitOld true .and .enum .qflags = false ∧ cxxAcceptsNotOld .enum = false := by
+  refine ⟨?_, by decide, by decide⟩
+  intro h
+  exact absurd (h false .and .enum .enum (by decide) (by decide)) (by decide)
 
-def builtin_calls_welltyped_full_statement : Prop :=
-  ∀ (a b : MaxArg), implAcceptsMax a b = true → cxxAcceptsMax a b = true
+/-! ### `std::max/std::min` (F13 — repaired) -/
 
-/-- **refuted** (finding F13): `Math.max(<uint>, 1)` is admitted; `std::max(a1, 1)` deduces `uint` and `int` -/
-theorem builtin_calls_welltyped_refuted : ¬ builtin_calls_welltyped_full_statement := by
+/-- **Both arguments of every admitted `Math.max/min` call are accepted by `std::max/min` as spelled**: same type for
+    deduction, or the explicit `<uint>` when a `uint` value meets an integer literal. -/
+theorem builtin_calls_welltyped (a b : MaxArg) (h : implAcceptsMax a b = true) : cxxAcceptsMax a b = true := by
+  cases a with
+  | typed s => cases b with
+    | typed t =>
+      cases s <;> cases t <;>
+        simp_all [implAcceptsMax, cxxAcceptsMax, uintTemplateArgument, MaxArg.cxxType, convertsToUint]
+    | intLiteral =>
+      cases s <;> simp_all [implAcceptsMax, cxxAcceptsMax, uintTemplateArgument, MaxArg.cxxType, convertsToUint]
+  | intLiteral => cases b with
+    | typed t =>
+      cases t <;> simp_all [implAcceptsMax, cxxAcceptsMax, uintTemplateArgument, MaxArg.cxxType, convertsToUint]
+    | intLiteral => simp [cxxAcceptsMax, uintTemplateArgument, MaxArg.cxxType]
+
+/-- the code before bd13865: `std::max(a1, 1)` with `a1 : uint` deduces `uint` and `int` (finding F13, fixed) -/
+theorem builtin_calls_welltyped_old_refuted :
+    ¬ ∀ (a b : MaxArg), implAcceptsMax a b = true → cxxAcceptsMaxOld a b = true := by
   intro h
   exact absurd (h (.typed .uint) .intLiteral (by decide)) (by decide)
 
-/-- it holds whenever no untyped integer constant meets a `uint` operand -/
-theorem builtin_calls_welltyped_partial (a b : MaxArg) (h : implAcceptsMax a b = true)
-    (hx : ¬ ((a = .typed .uint ∧ b = .intLiteral) ∨ (a = .intLiteral ∧ b = .typed .uint))) :
-    cxxAcceptsMax a b = true := by
-  cases a with
-  | typed s => cases b with
-    | typed t => cases s <;> cases t <;> simp_all [implAcceptsMax, cxxAcceptsMax, MaxArg.cxxType]
-    | intLiteral => cases s <;> simp_all [implAcceptsMax, cxxAcceptsMax, MaxArg.cxxType]
-  | intLiteral => cases b with
-    | typed t => cases t <;> simp_all [implAcceptsMax, cxxAcceptsMax, MaxArg.cxxType]
-    | intLiteral => simp [cxxAcceptsMax]
-
-/-! ### string literals (F3b) -/
+/-! ### string literals (F3b — repaired) -/
 
 open QV.Spec.CxxLit
 
-/-- full statement: the spelling written into `QStringLiteral(…)` denotes the source string -/
-def literal_roundtrip_full_statement : Prop :=
-  ∀ s : Str, decode16 (formatStringLiteral s) = some (units16 s)
+/-- the element a character becomes: escaped characters are numeric/simple escapes (one element with the character's
+    value), everything else is the character itself -/
+def elemOf (c : Char) : Elem :=
+  if c = '"' ∨ c = '\\' ∨ c = '\n' ∨ c = '\r' ∨ c = '\t' ∨ isCxxControl c = true then .unit c.toNat else .cp c.toNat
 
-/-- witness 1 (finding F3b): U+0001 is spelled `\u{1}`, which is not a C++17 escape sequence -/
+theorem octVal_digit : ∀ (k : Nat), k < 8 → octVal (octDigit k) = some k
+  | 0, _ => by decide
+  | 1, _ => by decide
+  | 2, _ => by decide
+  | 3, _ => by decide
+  | 4, _ => by decide
+  | 5, _ => by decide
+  | 6, _ => by decide
+  | 7, _ => by decide
+  | k + 8, h => absurd h (by omega)
+
+/-- **a three-digit octal escape is read as ONE element and cannot absorb what follows** (whatever `R` starts with) -/
+theorem octal3_read (n : Nat) (hn : n < 512) (R : Str) :
+    elements .normal ('\\' :: (octal3 n ++ R)) = (elements .normal R).map (Elem.unit n :: ·) := by
+  have h1 := octVal_digit (n / 64 % 8) (Nat.mod_lt _ (by decide))
+  have h2 := octVal_digit (n / 8 % 8) (Nat.mod_lt _ (by decide))
+  have h3 := octVal_digit (n % 8) (Nat.mod_lt _ (by decide))
+  have hv : (n / 64 % 8 * 8 + n / 8 % 8) * 8 + n % 8 = n := by omega
+  simp only [octal3, List.cons_append, List.nil_append, elements, h1, h2, h3]
+  simp [hv]
+
+/-- reading the spelling of one character -/
+theorem step (c : Char) (R : Str) :
+    elements .normal (escapeCxxChar c ++ R) = (elements .normal R).map (elemOf c :: ·) := by
+  unfold escapeCxxChar
+  by_cases h1 : c = '"'
+  · subst h1; simp [elements, octVal, simpleEscape, elemOf]
+  · by_cases h2 : c = '\\'
+    · subst h2; simp [elements, octVal, simpleEscape, elemOf]
+    · by_cases h3 : c = '\n'
+      · subst h3; simp [elements, octVal, simpleEscape, elemOf]
+      · by_cases h4 : c = '\r'
+        · subst h4; simp [elements, octVal, simpleEscape, elemOf]
+        · by_cases h5 : c = '\t'
+          · subst h5; simp [elements, octVal, simpleEscape, elemOf]
+          · by_cases h6 : isCxxControl c = true
+            · have hn : c.toNat < 512 := by
+                simp only [isCxxControl, Bool.or_eq_true, decide_eq_true_eq, beq_iff_eq] at h6
+                omega
+              simp only [h1, h2, h3, h4, h5, h6, if_false, if_true]
+              rw [List.cons_append, octal3_read _ hn]
+              simp [elemOf, h6]
+            · simp [h1, h2, h3, h4, h5, h6, elements, plain, elemOf]
+
+theorem elements_fmt : ∀ (s : Str), elements .normal (formatStringLiteral s) = some (s.map elemOf) := by
+  intro s
+  induction s with
+  | nil => simp [formatStringLiteral, elements]
+  | cons c rest ih =>
+    have hfmt : formatStringLiteral (c :: rest) = escapeCxxChar c ++ formatStringLiteral rest := by
+      simp [formatStringLiteral, List.flatMap_cons]
+    rw [hfmt, step, ih]
+    simp
+
+/-- every escaped character is ASCII -/
+theorem escaped_lt_128 (c : Char)
+    (h : c = '"' ∨ c = '\\' ∨ c = '\n' ∨ c = '\r' ∨ c = '\t' ∨ isCxxControl c = true) : c.toNat < 128 := by
+  rcases h with h | h | h | h | h | h
+  · subst h; decide
+  · subst h; decide
+  · subst h; decide
+  · subst h; decide
+  · subst h; decide
+  · simp only [isCxxControl, Bool.or_eq_true, decide_eq_true_eq, beq_iff_eq] at h
+    omega
+
+theorem encode_elems16 : ∀ (s : Str), encodeWith utf16 0xFFFF (s.map elemOf) = some (units16 s) := by
+  intro s
+  induction s with
+  | nil => simp [encodeWith, units16]
+  | cons c rest ih =>
+    have hcons : units16 (c :: rest) = utf16 c.toNat ++ units16 rest := by simp [units16, List.flatMap_cons]
+    simp only [List.map_cons, hcons]
+    by_cases h : (c = '"' ∨ c = '\\' ∨ c = '\n' ∨ c = '\r' ∨ c = '\t' ∨ isCxxControl c = true)
+    · have he : elemOf c = Elem.unit c.toNat := by simp [elemOf, h]
+      have hlt := escaped_lt_128 c h
+      have hv : c.toNat ≤ 0xFFFF := by omega
+      have hu : utf16 c.toNat = [c.toNat] := by
+        unfold utf16
+        have : c.toNat < 0x10000 := by omega
+        simp [this]
+      rw [he]
+      simp [encodeWith, hv, ih, hu]
+    · have he : elemOf c = Elem.cp c.toNat := by simp [elemOf, h]
+      rw [he]
+      simp [encodeWith, ih]
+
+theorem encode_elems8 : ∀ (s : Str), encodeWith utf8 0xFF (s.map elemOf) = some (bytes8 s) := by
+  intro s
+  induction s with
+  | nil => simp [encodeWith, bytes8]
+  | cons c rest ih =>
+    have hcons : bytes8 (c :: rest) = utf8 c.toNat ++ bytes8 rest := by simp [bytes8, List.flatMap_cons]
+    simp only [List.map_cons, hcons]
+    by_cases h : (c = '"' ∨ c = '\\' ∨ c = '\n' ∨ c = '\r' ∨ c = '\t' ∨ isCxxControl c = true)
+    · have he : elemOf c = Elem.unit c.toNat := by simp [elemOf, h]
+      have hlt := escaped_lt_128 c h
+      have hv : c.toNat ≤ 0xFF := by omega
+      have hu : utf8 c.toNat = [c.toNat] := by
+        unfold utf8
+        have : c.toNat < 0x80 := by omega
+        simp [this]
+      rw [he]
+      simp [encodeWith, hv, ih, hu]
+    · have he : elemOf c = Elem.cp c.toNat := by simp [elemOf, h]
+      rw [he]
+      simp [encodeWith, ih]
+
+/-- **String literals denote the source strings** — for EVERY string of Unicode scalar values: the spelling written
+    into `QStringLiteral("…")` (a `u"…"` literal) is read by a C++17 compiler as exactly the UTF-16 code units of the
+    string (NUL, control characters followed by digits, quotes, backslashes, non-ASCII and astral characters included). -/
+theorem literal_roundtrip (s : Str) : decode16 (formatStringLiteral s) = some (units16 s) := by
+  unfold decode16
+  rw [elements_fmt s]
+  exact encode_elems16 s
+
+/-- … and the ordinary literals (`QCoreApplication::translate("…", "…")`, `qDebug() << "…"`) are the UTF-8 bytes -/
+theorem literal_roundtrip_narrow (s : Str) : decode8 (formatStringLiteral s) = some (bytes8 s) := by
+  unfold decode8
+  rw [elements_fmt s]
+  exact encode_elems8 s
+
+/-! #### the former printer (Rust `{:?}`, before 5f82544): witnesses of finding F3b (fixed) -/
+
+/-- witness 1: U+0001 was spelled `\u{1}`, which is not a C++17 escape sequence -/
 theorem literal_control_char_witness :
-    formatStringLiteral ['\x01'] = ['\\', 'u', '{', '1', '}'] ∧ decode16 (formatStringLiteral ['\x01']) = none := by
+    formatStringLiteralOld ['\x01'] = ['\\', 'u', '{', '1', '}'] ∧ decode16 (formatStringLiteralOld ['\x01']) = none := by
   decide +kernel
 
-/-- witness 2 (finding F3b): NUL followed by "12" is spelled `\012`, which a C++ compiler reads as ONE character, LF -/
+/-- witness 2: NUL followed by "12" was spelled `\012`, which a C++ compiler reads as ONE character, LF -/
 theorem literal_nul_digit_witness :
-    formatStringLiteral ['\x00', '1', '2'] = ['\\', '0', '1', '2'] ∧
-    decode16 (formatStringLiteral ['\x00', '1', '2']) = some [10] ∧ units16 ['\x00', '1', '2'] = [0, 49, 50] := by
+    formatStringLiteralOld ['\x00', '1', '2'] = ['\\', '0', '1', '2'] ∧
+    decode16 (formatStringLiteralOld ['\x00', '1', '2']) = some [10] ∧ units16 ['\x00', '1', '2'] = [0, 49, 50] := by
   decide +kernel
 
-/-- **refuted** -/
-theorem literal_roundtrip_refuted : ¬ literal_roundtrip_full_statement := by
+theorem literal_roundtrip_old_refuted : ¬ ∀ s : Str, decode16 (formatStringLiteralOld s) = some (units16 s) := by
   intro h
   have h1 := h ['\x01']
   rw [literal_control_char_witness.2] at h1
   exact absurd h1 (by simp)
 
+/-- the repaired printer on the two witnesses -/
+example : formatStringLiteral ['\x01'] = ['\\', '0', '0', '1'] ∧
+    formatStringLiteral ['\x00', '1', '2'] = ['\\', '0', '0', '0', '1', '2'] := by decide +kernel
+
 /-- the element a character should become -/
-def elemOf (c : Char) : Elem :=
+def elemOfOld (c : Char) : Elem :=
   if c = '\x00' ∨ c = '\t' ∨ c = '\r' ∨ c = '\n' ∨ c = '\\' ∨ c = '"' then .unit c.toNat else .cp c.toNat
 
 def headNotOctal : Str → Bool
@@ -317,26 +480,26 @@ theorem fmt_head (uni : Char → Bool) (d : Char) (rest : Str) (hd : (octVal d).
               · simpa [headNotOctal] using hd
 
 /-- reading the spelling of one character that is not `\u{…}`-escaped -/
-theorem step (uni : Char → Bool) (c : Char) (R : Str) (hu : uni c = false) :
+theorem stepOld (uni : Char → Bool) (c : Char) (R : Str) (hu : uni c = false) :
     elements .normal (escapeDebugChar uni c ++ R) =
-      if c = '\x00' then elements (.octal 0 1) R else (elements .normal R).map (elemOf c :: ·) := by
+      if c = '\x00' then elements (.octal 0 1) R else (elements .normal R).map (elemOfOld c :: ·) := by
   unfold escapeDebugChar
   by_cases h0 : c = '\x00'
   · subst h0; simp [elements, octVal]
   · by_cases h1 : c = '\t'
-    · subst h1; simp [elements, octVal, simpleEscape, elemOf]
+    · subst h1; simp [elements, octVal, simpleEscape, elemOfOld]
     · by_cases h2 : c = '\r'
-      · subst h2; simp [elements, octVal, simpleEscape, elemOf]
+      · subst h2; simp [elements, octVal, simpleEscape, elemOfOld]
       · by_cases h3 : c = '\n'
-        · subst h3; simp [elements, octVal, simpleEscape, elemOf]
+        · subst h3; simp [elements, octVal, simpleEscape, elemOfOld]
         · by_cases h4 : c = '\\'
-          · subst h4; simp [elements, octVal, simpleEscape, elemOf]
+          · subst h4; simp [elements, octVal, simpleEscape, elemOfOld]
           · by_cases h5 : c = '"'
-            · subst h5; simp [elements, octVal, simpleEscape, elemOf]
-            · simp [h0, h1, h2, h3, h4, h5, hu, elements, plain, elemOf]
+            · subst h5; simp [elements, octVal, simpleEscape, elemOfOld]
+            · simp [h0, h1, h2, h3, h4, h5, hu, elements, plain, elemOfOld]
 
-theorem elements_fmt (uni : Char → Bool) : ∀ (s : Str), goodStr uni s = true →
-    elements .normal (formatStringLiteralWith uni s) = some (s.map elemOf) := by
+theorem elements_fmtOld (uni : Char → Bool) : ∀ (s : Str), goodStr uni s = true →
+    elements .normal (formatStringLiteralWith uni s) = some (s.map elemOfOld) := by
   intro s
   induction s with
   | nil => intro _; simp [formatStringLiteralWith, elements]
@@ -347,7 +510,7 @@ theorem elements_fmt (uni : Char → Bool) : ∀ (s : Str), goodStr uni s = true
     have ihr := ih hr
     have hfmt : formatStringLiteralWith uni (c :: rest) = escapeDebugChar uni c ++ formatStringLiteralWith uni rest := by
       simp [formatStringLiteralWith, List.flatMap_cons]
-    rw [hfmt, step uni c _ hu]
+    rw [hfmt, stepOld uni c _ hu]
     by_cases h0 : c = '\x00'
     · simp only [h0, if_true]
       have hno : headNotOctal (formatStringLiteralWith uni rest) = true := by
@@ -363,12 +526,12 @@ theorem elements_fmt (uni : Char → Bool) : ∀ (s : Str), goodStr uni s = true
           rw [this]
           exact fmt_head uni d _ hd
       rw [octal_flush 0 1 _ hno, ihr]
-      simp [elemOf]
+      simp [elemOfOld]
     · simp only [h0, if_false]
       rw [ihr]
       simp
 
-theorem encode_elems : ∀ (s : Str), encodeWith utf16 0xFFFF (s.map elemOf) = some (units16 s) := by
+theorem encode_elemsOld : ∀ (s : Str), encodeWith utf16 0xFFFF (s.map elemOfOld) = some (units16 s) := by
   intro s
   induction s with
   | nil => simp [encodeWith, units16]
@@ -376,7 +539,7 @@ theorem encode_elems : ∀ (s : Str), encodeWith utf16 0xFFFF (s.map elemOf) = s
     have hcons : units16 (c :: rest) = utf16 c.toNat ++ units16 rest := by simp [units16, List.flatMap_cons]
     simp only [List.map_cons, hcons]
     by_cases h : (c = '\x00' ∨ c = '\t' ∨ c = '\r' ∨ c = '\n' ∨ c = '\\' ∨ c = '"')
-    · have he : elemOf c = Elem.unit c.toNat := by simp [elemOf, h]
+    · have he : elemOfOld c = Elem.unit c.toNat := by simp [elemOfOld, h]
       have hv : c.toNat ≤ 0xFFFF := by
         rcases h with h | h | h | h | h | h <;> subst h <;> decide
       have hu : utf16 c.toNat = [c.toNat] := by
@@ -385,35 +548,26 @@ theorem encode_elems : ∀ (s : Str), encodeWith utf16 0xFFFF (s.map elemOf) = s
         simp [this]
       rw [he]
       simp [encodeWith, hv, ih, hu]
-    · have he : elemOf c = Elem.cp c.toNat := by simp [elemOf, h]
+    · have he : elemOfOld c = Elem.cp c.toNat := by simp [elemOfOld, h]
       rw [he]
       simp [encodeWith, ih]
 
-/-- **Round trip for every string without `\u{…}`-escaped characters and without NUL-before-octal-digit** — for ANY
-    Unicode table `uni`: printable ASCII, the simple escapes (TAB, CR, LF, backslash, double quote), NUL not followed
-    by `0`–`7`, and every non-ASCII character Rust considers printable (BMP or astral) denote themselves. -/
-theorem literal_roundtrip_partial (uni : Char → Bool) (s : Str) (h : goodStr uni s = true) :
+/-- the characterisation of the former printer: it was right exactly on strings without `\u{…}`-escaped characters and
+    without NUL-before-octal-digit (for ANY Unicode table) -/
+theorem literal_roundtrip_old_partial (uni : Char → Bool) (s : Str) (h : goodStr uni s = true) :
     decode16 (formatStringLiteralWith uni s) = some (units16 s) := by
   unfold decode16
-  rw [elements_fmt uni s h]
-  exact encode_elems s
-
-/-- … in particular with the table of the toolchain -/
-theorem literal_roundtrip_partial_toolchain (s : Str)
-    (h : goodStr QV.Model.RustDebugTable.needsUnicodeEscape s = true) :
-    decode16 (formatStringLiteral s) = some (units16 s) :=
-  literal_roundtrip_partial _ s h
+  rw [elements_fmtOld uni s h]
+  exact encode_elemsOld s
 
 /-! ### non-vacuity -/
 
-example : goodStr QV.Model.RustDebugTable.needsUnicodeEscape "Tab\there \"q\" \\ é 日本 😀".toList = true := by
-  decide +kernel
-
 example : decode16 (formatStringLiteral "a\"b\\\n".toList) = some [97, 34, 98, 92, 10] := by decide +kernel
-
-example : goodStr QV.Model.RustDebugTable.needsUnicodeEscape ['\x00', '8'] = true := by decide +kernel
+example : decode16 (formatStringLiteral ['q', '\x01', '7', '́', '😀']) = some [113, 1, 55, 769, 55357, 56832] := by
+  decide +kernel
 example : goodStr QV.Model.RustDebugTable.needsUnicodeEscape ['\x00', '7'] = false := by decide +kernel
-example : goodStr QV.Model.RustDebugTable.needsUnicodeEscape ['a', '́'] = false := by decide +kernel
+example : spellArith .rem .double = .fmod ∧ spellArith .rem .int = .infix ∧ uintTemplateArgument (.typed .uint) .intLiteral = true ∧
+    uintTemplateArgument (.typed .int) .intLiteral = false := by decide
 
 /-- colliding prefixes: `foo`+`windowTitle` and `fooWindow`+`title` (and `title1`) get distinct names -/
 example :
